@@ -20,6 +20,13 @@ func (r *Router) NewProc() *Proc {
 	return &Proc{R: r, pkt: router.VerifNewPacket(nil, r.VerifLink(0), nil)}
 }
 
+var tailFill = func() (b [9000]byte) {
+	for i := range b {
+		b[i] = 0xa5
+	}
+	return
+}()
+
 type Stage int
 
 const (
@@ -66,6 +73,9 @@ func (p *Proc) Run(raw []byte, in Ingress, demux bool) (res ProcResult) {
 		}
 	}()
 	router.VerifReloadPacket(p.pkt, raw, link, src)
+	// The recycled buffer holds whatever the previous packet left behind. Make what lies beyond the received bytes
+	// a fixed pattern, so that a read past the packet's end gives the same result in every run.
+	copy(p.pkt.RawPacket[len(raw):cap(p.pkt.RawPacket)], tailFill[:])
 	res.Stage = StageFast
 	if demux {
 		if _, ok := udpip.VerifDemux(link, p.pkt.RawPacket, p.R.VerifNumProcessors()); !ok {
